@@ -161,6 +161,26 @@ def version_grid(quick: bool) -> list:
     return out
 
 
+BEHAVE_SCRIPT = ["1;255;0;0;17;2.0", "1;3;0;0;3;", "1;255;3;0;22;1500", ("send", (1, 3, 1, 0, 2, "a")), "1;255;3;0;32;500", ("send", (1, 3, 1, 0, 2, "b")),
+                 "1;255;3;0;22;1600", "0;255;3;0;14;ready", "1;255;3;0;33;1", "2;3;1;0;2;x", "1;255;4;0;0;fw"]
+
+
+def behaviour(version: str) -> list:
+    """What a gateway whose version was set to `version` does with a fixed script (wake announcements of both
+    kinds, sends to the node in between, gateway-ready, an unknown node): outcomes, writes and sleeping flags."""
+    from aiomysensors.model.message import Message
+
+    s = Session(version, reset_modules=False)
+    out = []
+    for st in BEHAVE_SCRIPT:
+        o = s.send(Message(*st[1])) if isinstance(st, tuple) else s.line(st)
+        d = o.describe()
+        d.pop("exc_str", None)
+        out.append(d)
+    out.append({n: node.sleeping for n, node in sorted(s.gateway.nodes.items())})
+    return out
+
+
 def grid_case(job) -> list:
     kind, arg = job
     viols = []
@@ -188,6 +208,15 @@ def grid_case(job) -> list:
                 viols.append((f"C05|wrong-protocol-selected|{mm}|parts={len(v.split('.'))}", f"{via} {v!r} must select {sp}, got {active}", {"kind": kind, "arg": arg}))
             if R.spec_protocol(s.gateway.protocol_version) != sp:
                 viols.append((f"C05|stored-version-disagrees", f"{via} {v!r}: stored {s.gateway.protocol_version!r}", {"kind": kind, "arg": arg}))
+        # "the rules in force are those of <sp>": a gateway told `v` behaves exactly like one told `sp` (wakes, buffering, replies)
+        try:
+            got, want = behaviour(v), behaviour(sp)
+        except Exception as exc:  # noqa: BLE001
+            got, want = repr(exc), None
+        if got != want:
+            i = next((i for i, (a, b) in enumerate(zip(got, want)) if a != b), None) if isinstance(got, list) and isinstance(want, list) else None
+            mm = ".".join(v.split(".")[:2])
+            viols.append((f"C05|behaves-unlike-selected-protocol|{mm}|parts={len(v.split('.'))}", f"a gateway whose version is {v!r} (rules {sp}) does not behave like one under {sp!r}: step #{i} {BEHAVE_SCRIPT[i] if i is not None and i < len(BEHAVE_SCRIPT) else 'sleeping flags'}: {got[i] if i is not None else got} vs {want[i] if i is not None else want}", {"kind": kind, "arg": arg}))
     else:
         version, cmd, typ = arg
         s = Session(version)
@@ -310,7 +339,7 @@ def run(ctx: core.Ctx) -> core.Report:
         "grid_cases": len(jobs),
         "context_entry_cases": len(ejobs),
         "distinct_nontrivial_transitions": res["nontrivial_transitions"],
-        "rule": "(a) every version string of the grid through the setter, a version reply and a gateway presentation; (c) every internal type -1..40 and stream type -1..8 per version; (b) all histories of version reports mixed with traffic and type probes to the stated depth; (b') the same with wake announcements and application commands parked for a sleeping node across version changes; (d) gateways entering their context over persistence files with 8 stored gateway-node versions x 7 report sequences (the stored string itself included) x reported by version reply / by gateway presentation, and contexts left through a transport-failed / transport / read / application error and entered again",
+        "rule": "(a) every version string of the grid through the setter, a version reply and a gateway presentation, and an 11-step behaviour script (wakes of both kinds, sends, gateway-ready) compared with the same script under the selected protocol's own version string; (c) every internal type -1..40 and stream type -1..8 per version; (b) all histories of version reports mixed with traffic and type probes to the stated depth; (b') the same with wake announcements and application commands parked for a sleeping node across version changes; (d) gateways entering their context over persistence files with 8 stored gateway-node versions x 7 report sequences (the stored string itself included) x reported by version reply / by gateway presentation, and contexts left through a transport-failed / transport / read / application error and entered again",
         "bounds": {"depth": depth, "version_strings": len(version_grid(ctx.quick)), "per_cfg": res["per_cfg"]},
         "samples": ctx.pick(res["samples"], 2) + [{"grid": jobs[7]}, {"grid": jobs[-3]}],
     }
